@@ -882,8 +882,10 @@ Definition recover (s : st) (m : mem) : st * mem :=
   let '(s1, m1) := fold_left (fun sm g => recover_segment (g_id g) (g_seq g) (fst sm) (snd sm))
                              order (s, m) in
   let m2 := seal_all_but_last order m1 in
-  let s2 := emit (EIndex (m_idx m2)) s1 in
-  (remove_bac s2, m2).
+  (* make the newest segment the current one, so that Sync flushes it *)
+  let '(s1', m3) := swap_segment s1 m2 in
+  let s2 := emit (EIndex (m_idx m3)) s1' in
+  (remove_bac s2, m3).
 
 Definition db_open (seed : N) (s : st) : st * out :=
   match s_mem s with
